@@ -55,8 +55,14 @@ def run_binary(binary, prop, env_extra, timeout, logpath, run_filter=None):
         args += ["-test.run", run_filter]
     if os.environ.get("VERIF_VERBOSE"):
         args.append("-test.v")
+    limit = PROPS[prop].get("rlimit_as_gb")
+
+    def pre():
+        if limit:  # address-space limit: a runaway allocation ends the process instead of the machine
+            import resource
+            resource.setrlimit(resource.RLIMIT_AS, (limit << 30, limit << 30))
     with open(logpath, "w") as lf:
-        return subprocess.Popen(args, cwd=cwd, env=env, stdout=lf, stderr=subprocess.STDOUT)
+        return subprocess.Popen(args, cwd=cwd, env=env, stdout=lf, stderr=subprocess.STDOUT, preexec_fn=pre)
 
 
 def load_findings(prop):
@@ -315,9 +321,14 @@ def write_evidence(prop, spec, tier, seed, frags, violations, inconclusive, wall
     if inconclusive:
         ev["coverage"]["inconclusive"] = [m[:300] for m in inconclusive]
     os.makedirs(os.path.join(ROOT, "evidence"), exist_ok=True)
-    with open(os.path.join(ROOT, "evidence", prop + ".json"), "w") as f:
-        json.dump(ev, f, indent=1, sort_keys=True)
-        f.write("\n")
+    paths = [os.path.join(ROOT, "evidence", prop + ".json")]
+    if tier == "thorough":  # also kept apart: evidence/<id>.json is rewritten by every run, whichever tier ran last
+        os.makedirs(os.path.join(ROOT, "evidence", "thorough"), exist_ok=True)
+        paths.append(os.path.join(ROOT, "evidence", "thorough", prop + ".json"))
+    for path in paths:
+        with open(path, "w") as f:
+            json.dump(ev, f, indent=1, sort_keys=True)
+            f.write("\n")
     return evals >= 1 and len(nontriv) >= 2 and not missing
 
 
